@@ -26,6 +26,8 @@ def check_case(case, dumps, stepper=False):
     xinfo = None         # (dump before X, script)
     parents_clean = True # parents were cleared since the last extend-from-secondaries
     for k, (op, raw) in enumerate(zip(case["ops"], dumps)):
+        if raw == [8]:
+            continue          # skipped by the harness (exception not followed by reset)
         try:
             d = decode(raw, n, nev)
         except Exception as e:
